@@ -51,6 +51,15 @@ theorem tstep_loop (s : TLoop) (l : TLabel) :
       · split
         · exact Or.inl rfl
         · exact Or.inr (Or.inl ⟨_, by rw [cleanup_loop]⟩)
+  | negOkFb k p f =>
+    simp only [tstep, tNegOk]
+    split
+    · exact Or.inl rfl
+    · split
+      · exact Or.inl rfl
+      · split
+        · exact Or.inl rfl
+        · exact Or.inr (Or.inl ⟨_, by rw [cleanup_loop]⟩)
   | negFail k =>
     simp only [tstep, tNegFail]
     split
@@ -60,6 +69,13 @@ theorem tstep_loop (s : TLoop) (l : TLabel) :
       · split
         · exact Or.inl rfl
         · exact Or.inr (Or.inl ⟨_, by rw [cleanup_loop]⟩)
+  | yamuxOpened k =>
+    simp only [tstep, tYamuxOpened]
+    split
+    · exact Or.inl rfl
+    · split
+      · exact Or.inl rfl
+      · split <;> exact Or.inl rfl
   | takeCmd =>
     simp only [tstep, tTakeCmd]
     split
@@ -179,7 +195,8 @@ theorem le_sum_of_mem {α : Type} (f : α → Nat) : ∀ (l : List α) (x : α),
 
 theorem busy_permits (ka : List Bool) (x : Sub) (h : Busy ka x) : 0 < x.permits ka := by
   unfold Sub.permits
-  rcases h with h | ⟨hk, h | h | h⟩
+  rcases h with h | h | ⟨hk, h | h | h⟩
+  · simp [h]
   · simp [h]
   · rw [h]; simp only []; omega
   · simp [h, hk]
@@ -254,15 +271,18 @@ theorem cleanup_keep (t : TLoop) (k : Nat) (x : Sub) (hrun : (cleanup t).loop.ex
   rw [cleanup_loop] at hrun
   rw [cleanup_of_running _ hrun]; exact h
 
-/-- Every transition other than the end of ITS negotiation leaves a negotiating substream in
-`pending_substreams`, as long as the loop has not returned. -/
-theorem negotiating_persists (s : TLoop) (l : TLabel) (k : Nat) (x : Sub)
-    (hk : s.subs[k]? = some x) (hx : x.stage = .negotiating)
-    (hl1 : ∀ p, l ≠ .negOk k p) (hl2 : l ≠ .negFail k)
+/-- Every transition other than the progress or the end of ITS OWN future leaves an entry of
+`pending_substreams` (yamux stream being opened, or negotiating) where it is, as long as the loop has not returned. -/
+theorem pending_persists (s : TLoop) (l : TLabel) (k : Nat) (x : Sub)
+    (hk : s.subs[k]? = some x) (hx : x.stage.pending = true)
+    (hl : l.touches k = false)
     (hrun : (tstep s l).loop.exited = none) : (tstep s l).subs[k]? = some x := by
   have hlt : k < s.subs.length := (List.getElem?_eq_some_iff.mp hk).1
   have happ : ∀ y, (s.subs ++ [y])[k]? = some x := fun y => by
     rw [List.getElem?_append_left hlt]; exact hk
+  have hne_of : ∀ (k' : Nat) (y : Sub), s.subs[k']? = some y → y.stage.pending = false → k' ≠ k := by
+    intro k' y hy hst e
+    rw [e, hk] at hy; cases hy; rw [hx] at hst; cases hst
   cases l with
   | accept =>
     simp only [tstep, tAccept] at hrun ⊢
@@ -285,7 +305,24 @@ theorem negotiating_persists (s : TLoop) (l : TLabel) (k : Nat) (x : Sub)
     · rw [if_pos h1] at hrun ⊢; exact cleanup_keep _ k x hrun hk
     · rw [if_neg h1]; exact hk
   | negOk k' p =>
-    have hne : k' ≠ k := fun e => hl1 p (by rw [e])
+    have hne : k' ≠ k := by simpa [TLabel.touches, TLabel.endsNeg] using hl
+    simp only [tstep, tNegOk] at hrun ⊢
+    by_cases h1 : s.running = false
+    · rw [if_pos h1]; exact hk
+    · rw [if_neg h1] at hrun ⊢
+      cases hy : s.subs[k']? with
+      | none => exact hk
+      | some y =>
+        rw [hy] at hrun
+        simp only [] at hrun ⊢
+        by_cases h3 : y.stage ≠ .negotiating
+        · rw [if_pos h3]; exact hk
+        · rw [if_neg h3] at hrun ⊢
+          apply cleanup_keep _ k x hrun
+          show (s.subs.set k' _)[k]? = some x
+          rw [List.getElem?_set_ne hne]; exact hk
+  | negOkFb k' p f =>
+    have hne : k' ≠ k := by simpa [TLabel.touches, TLabel.endsNeg] using hl
     simp only [tstep, tNegOk] at hrun ⊢
     by_cases h1 : s.running = false
     · rw [if_pos h1]; exact hk
@@ -302,7 +339,7 @@ theorem negotiating_persists (s : TLoop) (l : TLabel) (k : Nat) (x : Sub)
           show (s.subs.set k' _)[k]? = some x
           rw [List.getElem?_set_ne hne]; exact hk
   | negFail k' =>
-    have hne : k' ≠ k := fun e => hl2 (by rw [e])
+    have hne : k' ≠ k := by simpa [TLabel.touches, TLabel.endsNeg] using hl
     simp only [tstep, tNegFail] at hrun ⊢
     by_cases h1 : s.running = false
     · rw [if_pos h1]; exact hk
@@ -312,12 +349,27 @@ theorem negotiating_persists (s : TLoop) (l : TLabel) (k : Nat) (x : Sub)
       | some y =>
         rw [hy] at hrun
         simp only [] at hrun ⊢
-        by_cases h3 : y.stage ≠ .negotiating
+        by_cases h3 : y.stage.pending = false
         · rw [if_pos h3]; exact hk
         · rw [if_neg h3] at hrun ⊢
           apply cleanup_keep _ k x hrun
           show (s.subs.set k' _)[k]? = some x
           rw [List.getElem?_set_ne hne]; exact hk
+  | yamuxOpened k' =>
+    have hne : k' ≠ k := by simpa [TLabel.touches] using hl
+    simp only [tstep, tYamuxOpened]
+    by_cases h1 : s.running = false
+    · rw [if_pos h1]; exact hk
+    · rw [if_neg h1]
+      cases hy : s.subs[k']? with
+      | none => exact hk
+      | some y =>
+        simp only []
+        by_cases h3 : y.stage = .opening
+        · rw [if_pos h3]
+          show (s.subs.set k' _)[k]? = some x
+          rw [List.getElem?_set_ne hne]; exact hk
+        · rw [if_neg h3]; exact hk
   | takeCmd =>
     simp only [tstep, tTakeCmd] at hrun ⊢
     by_cases h1 : s.running = false
@@ -358,8 +410,7 @@ theorem negotiating_persists (s : TLoop) (l : TLabel) (k : Nat) (x : Sub)
             | none => exact hk
             | some k' =>
               obtain ⟨y, hy, hst⟩ := firstAt_stage _ _ _ _ hf
-              have hne : k' ≠ k := by
-                intro e; rw [e, hk] at hy; cases hy; rw [hx] at hst; cases hst
+              have hne : k' ≠ k := hne_of k' y hy (by rw [hst]; rfl)
               simp only []
               rw [setStage_other _ _ _ _ hne]; exact hk
           | closed => exact cleanup_keep _ k x hrun hk
@@ -378,8 +429,7 @@ theorem negotiating_persists (s : TLoop) (l : TLabel) (k : Nat) (x : Sub)
     cases hf0 : firstAt s.subs i .heldHalf with
     | some k' =>
       obtain ⟨y, hy, hst⟩ := firstAt_stage _ _ _ _ hf0
-      have hne : k' ≠ k := by
-        intro e; rw [e, hk] at hy; cases hy; rw [hx] at hst; cases hst
+      have hne : k' ≠ k := hne_of k' y hy (by rw [hst]; rfl)
       simp only []
       rw [setStage_other _ _ _ _ hne]; exact hk
     | none =>
@@ -388,8 +438,7 @@ theorem negotiating_persists (s : TLoop) (l : TLabel) (k : Nat) (x : Sub)
       | none => exact hk
       | some k' =>
         obtain ⟨y, hy, hst⟩ := firstAt_stage _ _ _ _ hf
-        have hne : k' ≠ k := by
-          intro e; rw [e, hk] at hy; cases hy; rw [hx] at hst; cases hst
+        have hne : k' ≠ k := hne_of k' y hy (by rw [hst]; rfl)
         simp only []
         rw [setStage_other _ _ _ _ hne]; exact hk
   | halfClose i =>
@@ -402,8 +451,7 @@ theorem negotiating_persists (s : TLoop) (l : TLabel) (k : Nat) (x : Sub)
       | none => exact hk
       | some k' =>
         obtain ⟨y, hy, hst⟩ := firstAt_stage _ _ _ _ hf
-        have hne : k' ≠ k := by
-          intro e; rw [e, hk] at hy; cases hy; rw [hx] at hst; cases hst
+        have hne : k' ≠ k := hne_of k' y hy (by rw [hst]; rfl)
         simp only []
         rw [setStage_other _ _ _ _ hne]; exact hk
   | fill i =>
@@ -417,12 +465,31 @@ theorem negotiating_persists (s : TLoop) (l : TLabel) (k : Nat) (x : Sub)
     apply cleanup_keep _ k x hrun
     simp only [List.getElem?_map, hk, Option.map_some]
     have : ¬ (x.proto = some i ∧ (x.stage = .queued ∨ x.stage = .held ∨ x.stage = .heldHalf)) := by
-      rw [hx]; simp
+      rintro ⟨_, h | h | h⟩ <;> (rw [h] at hx; cases hx)
     simp [this]
+
+/-- Every transition other than the end of ITS negotiation leaves a negotiating substream in
+`pending_substreams`, as long as the loop has not returned. -/
+theorem negotiating_persists (s : TLoop) (l : TLabel) (k : Nat) (x : Sub)
+    (hk : s.subs[k]? = some x) (hx : x.stage = .negotiating)
+    (hl : l.endsNeg k = false)
+    (hrun : (tstep s l).loop.exited = none) : (tstep s l).subs[k]? = some x := by
+  have hp : x.stage.pending = true := by rw [hx]; rfl
+  cases l with
+  | yamuxOpened k' =>
+    by_cases hkk : k' = k
+    · -- `yamuxOpened k` on an entry that is already negotiating does nothing
+      subst hkk
+      simp only [tstep, tYamuxOpened]
+      split
+      · exact hk
+      · rw [hk]; simp [hx, hk]
+    · exact pending_persists s _ k x hk hp (by simpa [TLabel.touches] using hkk) hrun
+  | _ => exact pending_persists s _ k x hk hp (by simpa [TLabel.touches] using hl) hrun
 
 theorem trun_negotiating (ls : List TLabel) : ∀ (s : TLoop) (k : Nat) (x : Sub),
     s.subs[k]? = some x → x.stage = .negotiating →
-    (∀ l ∈ ls, (∀ p, l ≠ .negOk k p) ∧ l ≠ .negFail k) →
+    (∀ l ∈ ls, l.endsNeg k = false) →
     (trun s ls).loop.exited = none → (trun s ls).subs[k]? = some x := by
   induction ls with
   | nil => intro s k x hk _ _ _; exact hk
@@ -430,14 +497,27 @@ theorem trun_negotiating (ls : List TLabel) : ∀ (s : TLoop) (k : Nat) (x : Sub
     intro s k x hk hx hls hrun
     have hl := hls l (List.mem_cons_self ..)
     have hmid : (tstep s l).loop.exited = none := trun_exited ls _ hrun
-    exact ih _ k x (negotiating_persists s l k x hk hx hl.1 hl.2 hmid) hx
+    exact ih _ k x (negotiating_persists s l k x hk hx hl hmid) hx
+      (fun l' hl' => hls l' (List.mem_cons_of_mem _ hl')) hrun
+
+theorem trun_pending (ls : List TLabel) : ∀ (s : TLoop) (k : Nat) (x : Sub),
+    s.subs[k]? = some x → x.stage.pending = true →
+    (∀ l ∈ ls, l.touches k = false) →
+    (trun s ls).loop.exited = none → (trun s ls).subs[k]? = some x := by
+  induction ls with
+  | nil => intro s k x hk _ _ _; exact hk
+  | cons l ls ih =>
+    intro s k x hk hx hls hrun
+    have hl := hls l (List.mem_cons_self ..)
+    have hmid : (tstep s l).loop.exited = none := trun_exited ls _ hrun
+    exact ih _ k x (pending_persists s l k x hk hx hl hmid) hx
       (fun l' hl' => hls l' (List.mem_cons_of_mem _ hl')) hrun
 
 theorem cleanup_ka (s : TLoop) : (cleanup s).ka = s.ka := by
   unfold cleanup; split <;> rfl
 
 theorem tstep_ka (s : TLoop) (l : TLabel) : (tstep s l).ka = s.ka := by
-  cases l <;> simp only [tstep, tAccept, tNegOk, tNegFail, tTakeCmd, tIdleExit, tRecv] <;>
+  cases l <;> simp only [tstep, tAccept, tNegOk, tNegFail, tYamuxOpened, tTakeCmd, tIdleExit, tRecv] <;>
     (repeat' split) <;> first | rfl | (rw [cleanup_ka])
 
 theorem trun_ka (s : TLoop) (ls : List TLabel) : (trun s ls).ka = s.ka := by
@@ -456,7 +536,7 @@ theorem firstAt_spec (subs : List Sub) (i : Nat) (st : Stage) (k : Nat) (h : fir
   simp only [Bool.and_eq_true, beq_iff_eq] at hp
   exact hp
 
-theorem cleanup_keep_stable (t : TLoop) (k : Nat) (x : Sub) (hx : x.stage ≠ .negotiating)
+theorem cleanup_keep_stable (t : TLoop) (k : Nat) (x : Sub) (hx : x.stage.pending = false)
     (h : t.subs[k]? = some x) : (cleanup t).subs[k]? = some x := by
   unfold cleanup
   split
@@ -472,7 +552,7 @@ theorem heldHalf_persists (s : TLoop) (l : TLabel) (k : Nat) (x : Sub)
   have hlt : k < s.subs.length := (List.getElem?_eq_some_iff.mp hk).1
   have happ : ∀ y, (s.subs ++ [y])[k]? = some x := fun y => by
     rw [List.getElem?_append_left hlt]; exact hk
-  have hxn : x.stage ≠ .negotiating := by rw [hx]; simp
+  have hxn : x.stage.pending = false := by rw [hx]; rfl
   have hne_of : ∀ (k' : Nat) (y : Sub), s.subs[k']? = some y → y.stage ≠ .heldHalf → k' ≠ k := by
     intro k' y hy hst e
     rw [e, hk] at hy; cases hy; exact hst hx
@@ -509,8 +589,8 @@ theorem heldHalf_persists (s : TLoop) (l : TLabel) (k : Nat) (x : Sub)
           apply cleanup_keep_stable _ k x hxn
           show (s.subs.set k' _)[k]? = some x
           rw [List.getElem?_set_ne hne]; exact hk
-  | negFail k' =>
-    simp only [tstep, tNegFail]
+  | negOkFb k' p f =>
+    simp only [tstep, tNegOk]
     split
     · exact hk
     · cases hy : s.subs[k']? with
@@ -526,6 +606,36 @@ theorem heldHalf_persists (s : TLoop) (l : TLabel) (k : Nat) (x : Sub)
           apply cleanup_keep_stable _ k x hxn
           show (s.subs.set k' _)[k]? = some x
           rw [List.getElem?_set_ne hne]; exact hk
+  | negFail k' =>
+    simp only [tstep, tNegFail]
+    split
+    · exact hk
+    · cases hy : s.subs[k']? with
+      | none => exact hk
+      | some y =>
+        simp only []
+        by_cases h3 : y.stage.pending = false
+        · rw [if_pos h3]; exact hk
+        · rw [if_neg h3]
+          have hne : k' ≠ k := hne_of k' y hy (by
+            intro e; rw [e] at h3; exact h3 rfl)
+          apply cleanup_keep_stable _ k x hxn
+          show (s.subs.set k' _)[k]? = some x
+          rw [List.getElem?_set_ne hne]; exact hk
+  | yamuxOpened k' =>
+    simp only [tstep, tYamuxOpened]
+    split
+    · exact hk
+    · cases hy : s.subs[k']? with
+      | none => exact hk
+      | some y =>
+        simp only []
+        by_cases h3 : y.stage = .opening
+        · rw [if_pos h3]
+          have hne : k' ≠ k := hne_of k' y hy (by rw [h3]; simp)
+          show (s.subs.set k' _)[k]? = some x
+          rw [List.getElem?_set_ne hne]; exact hk
+        · rw [if_neg h3]; exact hk
   | takeCmd =>
     simp only [tstep, tTakeCmd]
     split
